@@ -44,6 +44,8 @@ func newReportElementTotalCommand(cu utils.CmdUtils, reportElement reportElement
 		Name:      "element-total",
 		Usage:     "Generates total sum for element grouped by food",
 		ArgsUsage: "[element-name]",
+		// the argument is an element name: do not let "h" or "help" select the implicit help sub-command
+		HideHelpCommand: true,
 		Flags: []cli.Flag{
 			&cli.BoolFlag{
 				Name:  "desc",
